@@ -63,6 +63,9 @@ def build_doc(rec, rnd, variant):
     elif rec["decl"] != "none":
         parts.append(DECL_SPELLINGS[variant % len(DECL_SPELLINGS)] % rec["decl"])
     parts.append("\r\n<html><head>")
+    if variant % 5 == 4:
+        # a long head: the meta element stands far from the beginning of the document
+        parts.append("".join('<link rel="stylesheet" href="/static/css/sheet-%03d.css" />\r\n' % k for k in range(40)))
     if rec["meta"] != "none":
         parts.append(META_SPELLINGS[variant % len(META_SPELLINGS)] % rec["meta"])
     parts.append('</head>\r\n<body><input type="checkbox" tal:attributes="checked c" />')
